@@ -105,6 +105,26 @@ func main() {
 				{"", "cut", "tableCut"},
 				{"Table", "SelectEntries", "selectEntries"},
 			}},
+			{"frac/token/provider.go", []fn{
+				{"Provider", "FirstTID", "providerFirstTID"},
+				{"Provider", "LastTID", "providerLastTID"},
+				{"Provider", "Ordered", "providerOrdered"},
+				{"Provider", "findBlock", "providerFindBlock"},
+				{"Provider", "GetToken", "providerGetToken"},
+			}},
+			{"frac/token/table_entry.go", []fn{
+				{"TableEntry", "getLastTID", "entryGetLastTID"},
+				{"TableEntry", "checkTIDInBlock", "entryCheckTIDInBlock"},
+				{"TableEntry", "getIndexInTokensBlock", "entryGetIndexInTokensBlock"},
+			}},
+			{"frac/active_token_list.go", []fn{
+				{"activeTokenProvider", "GetToken", "activeGetToken"},
+				{"activeTokenProvider", "FirstTID", "activeFirstTID"},
+				{"activeTokenProvider", "LastTID", "activeLastTID"},
+				{"activeTokenProvider", "Ordered", "activeOrdered"},
+				{"activeTokenProvider", "inverseTIDs", "activeInverseTIDs"},
+				{"TokenList", "FindPattern", "activeFindPattern"},
+			}},
 			{"util/util.go", []fn{{"", "BinSearchInRange", "binSearchInRange"}}},
 			{"parser/token_literal.go", []fn{{"", "GetHint", "getHint"}}},
 			{"frac/sealed_index.go", []fn{{"sealedTokenIndex", "GetTIDsByTokenExpr", "sealedGetTIDs"}}},
@@ -126,5 +146,5 @@ func main() {
 				e.Strs(x.def, skeleton(f, fd), fl.path+": statement skeleton of "+x.name)
 			}
 		}
-	}, "pattern/substring.go", "pattern/pattern.go", "frac/token/table.go", "util/util.go", "parser/token_literal.go", "frac/sealed_index.go")
+	}, "pattern/substring.go", "pattern/pattern.go", "frac/token/table.go", "frac/token/provider.go", "frac/token/table_entry.go", "frac/active_token_list.go", "util/util.go", "parser/token_literal.go", "frac/sealed_index.go")
 }
